@@ -320,7 +320,7 @@ pub fn judge(c: &Case, r: &RunResult, rec: &CaseRec) -> Check {
                         "reliable-channel-incomplete"
                     };
                     if quiescent_stall(r, std::time::Duration::from_secs(5)) {
-                        return Err(Fail::new(
+                        return Err(Fail::stall(
                             format!("{}:quiescent", sig),
                             format!(
                                 "channel {} at {:?}: {}/{} accepted messages delivered, senders_done={}, no closure reported and the association silent (heartbeats only) for {:.1}s; not yet returned/issued: {:?}; A: {} | B: {}; trace: {}",
@@ -381,6 +381,13 @@ fn checker(limits: fn() -> Limits) -> AsyncCheck<Case> {
     Arc::new(move |c: Case| {
         Box::pin(async move {
             let rec = CaseRec::default();
+            let mut c = c;
+            if std::env::var("VERIF_C12_FORCE_WRAP").is_ok() {
+                // developer aid: put both initial TSNs shortly before the 2^32 wrap
+                let k = (c.w.sends.len() as u32 % 60) + 1;
+                c.n.tsn_a = Some(0u32.wrapping_sub(k));
+                c.n.tsn_b = Some(0u32.wrapping_sub(61 - k.min(60)));
+            }
             let res = match run_case(&c.w, &c.n, &limits()).await {
                 Ok(r) => judge(&c, &r, &rec),
                 Err(e) => Err(Fail::new("harness-error", format!("rig failed: {e}"))),
